@@ -1,7 +1,6 @@
 use std::hash::{Hasher, Hash};
 use std::collections::{BTreeSet};
 use std::iter::FromIterator;
-use std::ops::Add;
 use std::convert::TryFrom;
 
 use regex::Regex;
@@ -85,11 +84,12 @@ impl<'a, T: ColumnProvider> ExpressionExecutionEngine<'a, T> {
                 let right_value = self.evaluate(right)?;
 
                 match (&left_value, &right_value) {
+                    // A timestamp that leaves the representable range has no value: report an error (the operators panic)
                     (Value::Timestamp(left), Value::Interval(right)) => {
-                        return Ok(Value::Timestamp(left.add(right.clone())));
+                        return left.checked_add_signed(right.clone()).map(|x| Value::Timestamp(x)).ok_or(EvaluationError::UndefinedOperation);
                     }
                     (Value::Interval(left), Value::Timestamp(right)) => {
-                        return Ok(Value::Timestamp(right.add(left.clone())));
+                        return right.checked_add_signed(left.clone()).map(|x| Value::Timestamp(x)).ok_or(EvaluationError::UndefinedOperation);
                     }
                     _ => {}
                 }
@@ -131,8 +131,8 @@ impl<'a, T: ColumnProvider> ExpressionExecutionEngine<'a, T> {
                     },
                     |x, y| {
                         match operator {
-                            ArithmeticOperator::Add => { Some(Value::Interval(x + y)) }
-                            ArithmeticOperator::Subtract => { Some(Value::Interval(x - y)) }
+                            ArithmeticOperator::Add => { x.checked_add(&y).map(|x| Value::Interval(x)) }
+                            ArithmeticOperator::Subtract => { x.checked_sub(&y).map(|x| Value::Interval(x)) }
                             ArithmeticOperator::Multiply => { None }
                             ArithmeticOperator::Divide => { None }
                         }
